@@ -2,6 +2,7 @@ SPECIFICATION Spec
 CONSTANTS
   P = 2
   K = 1
+  Fails = {}
   Nested = FALSE
   WaitFirst = TRUE
   Synchronised = FALSE
